@@ -501,3 +501,173 @@ Section Dynamic.
                       (negb (is_succ (stt y (sid s))) ||
                        forallb (fun p => oN_eqb (fs y p) (fs z p)) (out s))) proj.
 End Dynamic.
+
+(* ------------------------------------------------------------------------------------------ *)
+(* Amended (dynamic) inputs with deferral                                                      *)
+(* ------------------------------------------------------------------------------------------ *)
+(* A step may, while it runs, ask for further inputs (api.amend(inp=...)): which ones is external
+   behaviour, the Section variable [amend]: a function of the step and of the contents of its
+   DECLARED inputs (for a script step the script file is the first declared input, so a changed
+   script may amend other files).  What the code does with them:
+     - the amended edges are remembered with the step ([adyn]) until it runs again
+       (Step.reset_for_rerun deletes them, the new run adds its own);
+     - all of them available (a source that exists, an output of a SUCCEEDED step): the run goes on,
+       reads them, and the recorded input ingredients are those of declared ++ amended inputs;
+     - one of them not available: the run stops, the step is DEFERRED: PENDING, no stored hash,
+       flag [adef] (Step.mark_completed(None, wants_defer) / has_unavailable_dynamic_input);
+     - dispatch ([gate] = true, the code): a PENDING step is not dispatched while its flag is set
+       or while a remembered amended input is an output that is not built (UNAVAILABLE_INPUT_WHERE
+       case 1: attached, PLANNED or OUTDATED); the flag is cleared whenever one of its inputs
+       changes (Workflow.mark_step_pending through mark_consumers_pending);
+     - the skip test uses the REMEMBERED edges (the digest is computed over the present edges).
+   One pass in project order, as before; the order is assumed topological for amended edges too
+   ([wf_a]: whatever the contents, a step amends sources or outputs of earlier steps), so that a
+   producer has had its turn when a consumer gets its own.
+   [gate] = false is the engine in which remembered edges and flag do not block a RUN (they still
+   have to be available for a SKIP; under the code's gating that is implied): the rerun finds out
+   what it needs now.  Proved (proofs/EngineAmendProofs.v): a finished state is determined by the
+   world (finished_a_unique); with the code's gating a remembered edge whose producer cannot run
+   blocks a step that would no longer ask for it, and the result differs from a build from
+   scratch (props/C01.v, C01_D28_engine_refuted = D28).  NOT proved: that a build of the ungated
+   engine always ends in a finished state (it does on the witness). *)
+Record asys := mkA {
+  abase : sys;
+  adyn : N -> list N;        (* step id -> remembered amended inputs *)
+  adef : N -> bool }.        (* step id -> deferred *)
+
+Definition empty_asys : asys := mkA empty_sys (fun _ => []) (fun _ => false).
+
+Section Amend.
+  Variable run : N -> list (option N) -> list (option N) -> N -> N.
+  Variable amend : N -> list (option N) -> list N.
+  Variable gate : bool.
+
+  (* what the step would amend, given the present contents of its declared inputs *)
+  Definition extra_now (y : sys) (s : step) : list N := amend (sid s) (map (fs y) (inp s)).
+  (* the step with its amended inputs made explicit *)
+  Definition eff (y : sys) (s : step) : step :=
+    mkStep (sid s) (inp s ++ extra_now y s) (envn s) (out s).
+  Definition eproj (proj : project) (y : sys) : project := map (eff y) proj.
+  (* the step with its REMEMBERED amended inputs *)
+  Definition remb (y : asys) (s : step) : step :=
+    mkStep (sid s) (inp s ++ adyn y (sid s)) (envn s) (out s).
+
+  Definition unbuilt_output (proj : project) (b : sys) (p : N) : bool :=
+    match producer proj p with Some q => negb (is_succ (stt b q)) | None => false end.
+  Definition dyn_blocked (proj : project) (y : asys) (s : step) : bool :=
+    gate && (adef y (sid s) || existsb (unbuilt_output proj (abase y)) (adyn y (sid s))).
+
+  Definition all_avail (proj : project) (b : sys) (ps : list N) : bool :=
+    forallb (fun p => match avail proj b p with Some _ => true | None => false end) ps.
+
+  (* a step completed (ran or was skipped): its outputs are built, the consumers that remember
+     one of them as an amended input are marked pending, which clears their flag *)
+  Definition clear_flags (proj : project) (q : step) (y : asys) : N -> bool :=
+    fun id => adef y id && negb (existsb (fun p => memN p (out q)) (adyn y id)).
+
+  Inductive decision := DNone | DSkip | DRun | DDefer.
+
+  Definition decide (proj : project) (s : step) (y : asys) : decision :=
+    let b := abase y in
+    if is_succ (stt b (sid s)) then DNone
+    else if negb (ready proj b s) || dyn_blocked proj y s then DNone
+    else if all_avail proj b (adyn y (sid s)) && can_skip (remb y s) b then DSkip
+    else if all_avail proj b (extra_now b s) then DRun else DDefer.
+
+  Definition a_step_build (proj : project) (s : step) (y : asys) : asys :=
+    let b := abase y in
+    match decide proj s y with
+    | DNone => y
+    | DSkip => mkA (do_skip (remb y s) b) (adyn y) (clear_flags proj s y)
+    | DRun => mkA (do_run run (eff b s) b) (upd (adyn y) (sid s) (extra_now b s))
+                  (upd (clear_flags proj s y) (sid s) false)
+    | DDefer => mkA (mkSys (fs b) (ev b) (upd (tr b) (sid s) None) (stt b))
+                    (upd (adyn y) (sid s) (extra_now b s)) (upd (adef y) (sid s) true)
+    end.
+
+  Definition a_build (proj : project) (y : asys) : asys :=
+    fold_left (fun y s => a_step_build proj s y) proj y.
+
+  (* (step, true) = the command was executed (also when it then deferred), (step, false) = skipped *)
+  Fixpoint a_build_log (proj todo : project) (y : asys) : list (N * bool) :=
+    match todo with
+    | [] => []
+    | s :: rest =>
+      let y' := a_step_build proj s y in
+      match decide proj s y with
+      | DNone => a_build_log proj rest y'
+      | DSkip => (sid s, false) :: a_build_log proj rest y'
+      | _ => (sid s, true) :: a_build_log proj rest y'
+      end
+    end.
+
+  (* the startup rescan: pending propagation runs over declared and remembered edges; a step one
+     of whose inputs changed, or became outdated by the propagation, or one of whose variables
+     changed, loses its flag *)
+  Definition resync_a (proj : project) (y : asys) (w : world) : asys :=
+    let b := abase y in
+    let f' := fun x => if is_output proj x then fs b x else fst w x in
+    let dirty0 := fun x => negb (oN_eqb (f' x) (fs b x)) in
+    let denv := fun n => negb (oN_eqb (snd w n) (ev b n)) in
+    let st' := mark (map (remb y) proj) dirty0 denv (stt b) in
+    let dirty := fun p => dirty0 p ||
+                          match producer proj p with
+                          | Some q => is_succ (stt b q) && negb (is_succ (st' q))
+                          | None => false end in
+    mkA (mkSys f' (snd w) (tr b) st') (adyn y)
+        (fun id => adef y id &&
+                   negb (existsb (fun s => (sid s =? id) &&
+                                           (existsb dirty (inp s ++ adyn y id) || existsb denv (envn s)))
+                                 proj)).
+
+  Definition build_world_a (proj : project) (w : world) (y : asys) : asys :=
+    a_build proj (resync_a proj y w).
+
+  (* well-formed with amended edges: unique ids, unique outputs, and in every state the order is
+     topological for declared ++ amended inputs *)
+  Definition wf_a (proj : project) : Prop :=
+    forall y, wf (eproj proj y) = true.
+
+  (* a finished state: the defining equations of the static engine at the steps with their
+     amended inputs made explicit *)
+  Definition Finished_a (proj : project) (y : sys) : Prop := Finished run (eproj proj y) y.
+End Amend.
+
+(* amend given as a table: (step id, content id of the FIRST declared input, amended paths) *)
+Definition amend_tab (tab : list (N * N * list N)) (id : N) (contents : list (option N)) : list N :=
+  match contents with
+  | Some c :: _ =>
+    match find (fun x => (fst (fst x) =? id) && (snd (fst x) =? c)) tab with
+    | Some x => snd x
+    | None => []
+    end
+  | _ => []
+  end.
+
+(* correspondence checker for histories with amended inputs (harness/c01_engine.py) *)
+Fixpoint check_hist_a (tab : list (N * N * list N)) (proj : project) (y : asys)
+         (phases : list phase_spec) : bool :=
+  match phases with
+  | [] => true
+  | (src, env, elog, est, echg) :: rest =>
+    let y1 := resync_a proj y (src_of src, src_of env) in
+    let y2 := a_build mix_run (amend_tab tab) true proj y1 in
+    log_eqb (a_build_log mix_run (amend_tab tab) true proj proj y1) elog &&
+    forallb (fun x => Bool.eqb (is_succ (stt (abase y2) (fst x))) (snd x)) est &&
+    forallb (fun x => Bool.eqb (negb (oN_eqb (fs (abase y2) (fst x)) (fs (abase y) (fst x)))) (snd x)) echg &&
+    check_hist_a tab proj y2 rest
+  end.
+
+Fixpoint trace_hist_a (tab : list (N * N * list N)) (proj : project) (y : asys)
+         (phases : list phase_spec)
+  : list (list (N * bool) * list (N * bool) * list (N * bool)) :=
+  match phases with
+  | [] => []
+  | (src, env, _, est, echg) :: rest =>
+    let y1 := resync_a proj y (src_of src, src_of env) in
+    let y2 := a_build mix_run (amend_tab tab) true proj y1 in
+    (a_build_log mix_run (amend_tab tab) true proj proj y1,
+     map (fun x => (fst x, is_succ (stt (abase y2) (fst x)))) est,
+     map (fun x => (fst x, negb (oN_eqb (fs (abase y2) (fst x)) (fs (abase y) (fst x))))) echg)
+      :: trace_hist_a tab proj y2 rest
+  end.
